@@ -32,7 +32,11 @@ def mk(n, delay):
 
 def targets(tier):
     ns = [1, 2, 3, 5] if tier == "quick" else [1, 2, 3, 4, 5, 6, 7, 8, 16]
-    return [mk(n, d) for n in ns for d in (False, True)]
+    ts = [mk(n, d) for n in ns for d in (False, True)]
+    for t in ts: t.big = False
+    big = [mk(n, d) for n in ([12, 33] if tier == "quick" else [12, 33, 64, 100]) for d in (False, True)]
+    for t in big: t.big = True
+    return ts + big
 
 
 def traces(target, rng, tier):
@@ -40,7 +44,7 @@ def traces(target, rng, tier):
     out = []
     for k in range(n):
         p = rng.choice([0.05, 0.2, 0.5, 0.9])
-        out.append([{"strobe": int(rng.random() < p)} for _ in range(rng.randint(1, 60))])
+        out.append([{"strobe": int(rng.random() < p)} for _ in range(rng.randint(1, 60 + 3 * target.params['n']))])
     return out
 
 
@@ -48,6 +52,10 @@ def obligations(targets, tier):
     obs = []
     for t in targets:
         n = t.params["n"]; d = "true" if t.params["delay"] else "false"
+        if t.big:
+            obs.append(tie.corr(f"corr_{t.name}", t, mstep=f"stretch_mstep {n} {d}", m0=f"sr_init {n} {d}",
+                                describe=f"list model vs simulator at to_cycles={n} (beyond the R tie)"))
+            continue
         obs.append(tie.rlock(
             f"ob_{t.name}", t,
             St="list bool", mstep=f"stretch_mstep {n} {d}", enc="stretch_enc", dec=f"stretch_dec {n} {d}",
@@ -61,6 +69,7 @@ def obligations(targets, tier):
 def tie_theorems(targets, tier):
     s = ""
     for t in targets:
+        if t.big: continue
         n = t.params["n"]; d = "true" if t.params["delay"] else "false"
         s += f"""
 Theorem C55_{t.name} : forall tr, Forall (fun i => i < 2 ^ N.of_nat 1) tr ->
@@ -74,7 +83,7 @@ Qed.
 
 
 def tie_theorem_names(targets, tier):
-    return [f"C55_{t.name}" for t in targets]
+    return [f"C55_{t.name}" for t in targets if not t.big]
 
 LEVEL_TEXT = ("Machine-checked proof. (1) For every stretch length n >= 1, both delay modes and every strobe pattern, "
               "the hand model's output equals the windowed-OR specification (theorem C55_stretch_exact, induction over the trace). "
